@@ -243,11 +243,25 @@ func (c *Ctx) Violate(what string, repro map[string]any, expected, got, finding 
 type knownFinding struct {
 	ID          string `json:"id"`
 	Property    string `json:"property"`
+	// Properties lists further properties whose checks meet the same defect.
+	Properties  []string `json:"properties,omitempty"`
 	Status      string `json:"status"` // known | fixed
 	Signature   string `json:"signature"`
 	Witness     string `json:"witness"`
 	Description string `json:"description"`
 	Commit      string `json:"commit,omitempty"`
+}
+
+func (k knownFinding) appliesTo(id string) bool {
+	if k.Property == id {
+		return true
+	}
+	for _, p := range k.Properties {
+		if p == id {
+			return true
+		}
+	}
+	return false
 }
 
 func root() string {
@@ -514,7 +528,7 @@ func orchestrate(check *Check, tier string, seed int64, nworkers int, budgetOver
 	replayDir := filepath.Join(root(), "replays", check.ID)
 	newSeen := map[string]int{}
 	for _, v := range viol {
-		if k, ok := known[v.Finding]; ok && v.Finding != "" && k.Status == "known" && k.Property == check.ID {
+		if k, ok := known[v.Finding]; ok && v.Finding != "" && k.Status == "known" && k.appliesTo(check.ID) {
 			if !printedKnown[v.Finding] {
 				printedKnown[v.Finding] = true
 				fmt.Printf("KNOWN-FINDING: property=%s %s: %s [witness %s]\n", check.ID, k.ID, k.Description, compact(v.Repro))
@@ -536,7 +550,7 @@ func orchestrate(check *Check, tier string, seed int64, nworkers int, budgetOver
 		exit = 1
 	}
 	for id, hits := range merged.FindingHits {
-		if k, ok := known[id]; ok && k.Status == "known" && !printedKnown[id] && hits > 0 && k.Property == check.ID {
+		if k, ok := known[id]; ok && k.Status == "known" && !printedKnown[id] && hits > 0 && k.appliesTo(check.ID) {
 			// hits whose verbatim case was dropped by the per-worker cap
 			printedKnown[id] = true
 			fmt.Printf("KNOWN-FINDING: property=%s %s: %s\n", check.ID, k.ID, k.Description)
@@ -569,7 +583,7 @@ func orchestrate(check *Check, tier string, seed int64, nworkers int, budgetOver
 	}
 	kf := map[string]int64{}
 	for id, hits := range merged.FindingHits {
-		if k, ok := known[id]; ok && k.Status == "known" {
+		if k, ok := known[id]; ok && k.Status == "known" && k.appliesTo(check.ID) {
 			kf[id] = hits
 		}
 	}
